@@ -996,6 +996,8 @@ def configs(ctx):
             for ev, dr in (("q1", 0), ("p2", -1), ("q1", -1), ("never", 0), ("clock", 1)):
                 out.append(("adaptive", p, kw, "asc", ev, dr))
         out.append(("adaptive", p, {"rtol": 1e-8, "atol": 1e-10, "max_step": 0.05}, "asc", None, 0))
+        # a step cap that binds all along (loose tolerance, small cap): the twins must take the same capped steps
+        out.append(("adaptive", p, {"rtol": 1e-3, "atol": 1e-3, "max_step": 0.02}, "asc", None, 0))
         # options that must not be mixed up when they are handed to the twin (rtol/atol far apart, no step cap)
         out.append(("adaptive", p, {"rtol": 1e-6, "atol": 1e-11}, "asc", None, 0))
         out.append(("adaptive", p, {"rtol": 1e-6, "atol": 1e-11}, "asc", "q1", 0))
